@@ -15,7 +15,8 @@ use fe2o3_amqp::link::receiver::CreditMode;
 use fe2o3_amqp::link::delivery::DeliveryInfo;
 use fe2o3_amqp::link::RecvError;
 use fe2o3_amqp::types::definitions::ReceiverSettleMode;
-use fe2o3_amqp::types::messaging::Body;
+use fe2o3_amqp::link::receiver::TerminalDeliveryState;
+use fe2o3_amqp::types::messaging::{Accepted, Body, Modified};
 use fe2o3_amqp::types::primitives::Value;
 use fe2o3_amqp::{Receiver, Session};
 
@@ -302,6 +303,11 @@ async fn after_delivery(
     since_credit: &mut u32,
     cur_credit: &mut u32,
 ) -> bool {
+    // any flow the link writes is subject to the accounting oracle, not only credit updates
+    if mode != Mode::Overrun && choice(12) == 0 {
+        sim::probe("send-properties-flow");
+        let _ = r.send_properties().await;
+    }
     if mode != Mode::Manual {
         return true;
     }
@@ -398,13 +404,20 @@ fn spawn_app(mut r: Receiver, log: Rc<RefCell<AppLog>>, mode: Mode, dispose_kind
                         let _ = r.accept_all(pending.drain(..).collect::<Vec<_>>()).await;
                     }
                 }
-                2 => {
-                    if since_credit % 2 == 0 {
+                2 => match since_credit % 4 {
+                    0 => {
                         let _ = r.release(info).await;
-                    } else {
+                    }
+                    1 => {
                         let _ = r.accept(info).await;
                     }
-                }
+                    2 => {
+                        let _ = r.dispose(info, TerminalDeliveryState::Modified(Modified { delivery_failed: Some(true), undeliverable_here: None, message_annotations: None })).await;
+                    }
+                    _ => {
+                        let _ = r.dispose_all(vec![info], TerminalDeliveryState::Accepted(Accepted {})).await;
+                    }
+                },
                 3 => {
                     let _ = disposer.accept(info).await;
                 }
